@@ -216,9 +216,52 @@ def exc_code(ex):
     return 9
 
 
-def apply_op(fam, op):
+def gro_atoms(h):
+    """the AtomGro objects of a handle, without building Atom views"""
+    o = h.obj
+    if h.kind == "M":
+        return [a for r in o.residues for a in r]
+    if h.kind == "R":
+        return list(o._atoms_gro)
+    if h.kind == "A":
+        return [o.atom_gro]
+    return [o]
+
+
+def resolve(fam, op, bufs):
+    """Caller-side arrays of an operation.  `bufs` are ndarray objects the caller keeps and may hand to several
+    setters (buf id -> [array, bytes at creation]); a `src` makes the displacement / target point of move / move_to
+    a LIVE array of the body itself.  The values the arrays hold now are written back into the operation (they are
+    what the model gets and what the oracle compares with)."""
+    live = {}
+    k = op["op"]
+    if k in ("set_positions", "set_velocities") and op.get("buf") is not None and op.get("l") is not None:
+        b = op["buf"]
+        if b not in bufs:
+            arr = np.array(op["l"], dtype=float).reshape(-1, 3)
+            bufs[b] = [arr, arr.tobytes()]
+        live["arr"] = bufs[b][0]
+        op["l"] = bufs[b][0].tolist()
+    if k in ("move", "move_to") and op.get("src"):
+        src = op["src"]
+        h = fam[op["h"]]
+        if src["kind"] == "atom":
+            ags = gro_atoms(h)
+            live["v"] = ags[src["k"] % len(ags)].position          # the atom's own array
+        elif src["kind"] == "center":
+            live["v"] = h.obj.geometric_center
+        elif src["kind"] == "buf" and src["buf"] in bufs:
+            arr = bufs[src["buf"]][0]
+            live["v"] = arr[src["row"] % len(arr)]                 # a row view of an array assigned earlier
+        if "v" in live:
+            op["v"] = [float(x) for x in live["v"]]
+    return live
+
+
+def apply_op(fam, op, live=None):
     """run one operation on the implementation.  Returns (exception code, new Hd or None)."""
     from gaddlemaps import Alignment
+    live = live or {}
     h = fam[op["h"]]
     o = h.obj
     k = op["op"]
@@ -258,15 +301,16 @@ def apply_op(fam, op):
                 new = Hd("M", getattr(o, side), nroot, src.troot, sizes=src.sizes)
                 h.ends[side] = nroot
         elif k == "move":
-            o.move(np.array(op["v"], dtype=float))
+            o.move(live["v"] if "v" in live else np.array(op["v"], dtype=float))
         elif k == "move_to":
-            o.move_to(np.array(op["v"], dtype=float))
+            o.move_to(live["v"] if "v" in live else np.array(op["v"], dtype=float))
         elif k == "rotate":
             o.rotate(np.array(op["m"], dtype=float))
         elif k == "set_positions":
-            o.atoms_positions = np.array(op["l"], dtype=float).reshape(-1, 3)
+            o.atoms_positions = live["arr"] if "arr" in live else np.array(op["l"], dtype=float).reshape(-1, 3)
         elif k == "set_velocities":
-            o.atoms_velocities = None if op["l"] is None else np.array(op["l"], dtype=float).reshape(-1, 3)
+            o.atoms_velocities = (None if op["l"] is None else live["arr"] if "arr" in live
+                                  else np.array(op["l"], dtype=float).reshape(-1, 3))
         elif k == "set_ids":
             o.atoms_ids = list(op["l"])
         elif k == "set_resids_all":
@@ -328,8 +372,17 @@ def rrot(rs):
     return [[float(x) for x in row] for row in rotation_matrix(ax, float(rs.uniform(-6.3, 6.3)))]
 
 
-def gen_op(rs, fam):
+def pick_buf(rs, bufs, n):
+    """an array the caller already holds with n rows (shared between handles), or the id of a new one"""
+    same = [b for b, (arr, _) in bufs.items() if len(arr) == n]
+    if same and rs.randint(0, 3):
+        return int(rs.choice(same))
+    return max(list(bufs) + [-1]) + 1
+
+
+def gen_op(rs, fam, bufs=None):
     """draw one applicable operation for a random live handle"""
+    bufs = bufs if bufs is not None else {}
     full = len(fam) >= MAXFAM
     alis = [i for i, x in enumerate(fam) if x.kind == "L"]
     for _ in range(50):
@@ -385,16 +438,25 @@ def gen_op(rs, fam):
             op["i"] = int(n if bad else rs.randint(0, n))
         elif k == "resview":
             op["i"] = int(len(h.sizes) if bad else rs.randint(0, len(h.sizes)))
-        elif k == "move":
-            op["v"] = rvec(rs, 5)
-        elif k == "move_to":
-            op["v"] = rvec(rs, 20)
+        elif k in ("move", "move_to"):
+            op["v"] = rvec(rs, 5 if k == "move" else 20)
+            r = rs.randint(0, 10)
+            if r == 0:
+                op["src"] = {"kind": "atom", "k": int(rs.randint(0, n))}      # a live array of the body itself
+            elif r == 1:
+                op["src"] = {"kind": "center"}
+            elif r == 2 and bufs:
+                op["src"] = {"kind": "buf", "buf": int(rs.choice(list(bufs))), "row": int(rs.randint(0, 4))}
         elif k == "rotate":
             op["m"] = rrot(rs)
         elif k == "set_positions":
             op["l"] = [rvec(rs, 5) for _ in range(n + (1 if bad else 0))]
+            if not bad and rs.randint(0, 5) < 2:
+                op["buf"] = pick_buf(rs, bufs, n)        # ONE ndarray object handed to several setters
         elif k == "set_velocities":
             op["l"] = None if rs.randint(0, 4) == 0 else [rvec(rs, 2) for _ in range(n - (1 if bad and n > 1 else 0))]
+            if not bad and op["l"] is not None and rs.randint(0, 4) == 0:
+                op["buf"] = pick_buf(rs, bufs, n)
         elif k == "set_ids":
             op["l"] = [int(x) for x in rs.randint(1, 100000, size=n + (1 if bad else 0))]
         elif k in ("set_resids_all", "set_resid", "set_top_resid", "set_atomid"):
@@ -686,15 +748,26 @@ def run_case(world, ops=None, rs=None, nops=0, want_terms=True):
     steps = []
     done = []
     hist = {}
+    bufs = {}
+    assumed = []
     total = len(ops) if ops is not None else nops
     for s in range(total):
-        op = ops[s] if ops is not None else gen_op(rs, fam)
+        op = ops[s] if ops is not None else gen_op(rs, fam, bufs)
         if op["h"] >= len(fam):
             break
+        op = dict(op)
+        live = resolve(fam, op, bufs)
         done.append(op)
         hist[op["op"]] = hist.get(op["op"], 0) + 1
+        if "arr" in live:
+            hist["shared_array"] = hist.get("shared_array", 0) + 1
+        if "v" in live:
+            hist["live_displacement"] = hist.get("live_displacement", 0) + 1
         orc.pre(fam, op)
-        code, new = apply_op(fam, op)
+        code, new = apply_op(fam, op, live)
+        for b, (arr, at_creation) in bufs.items():
+            if arr.tobytes() != at_creation and not any(a[0] == b for a in assumed):
+                assumed.append((b, s + 1))
         if code:
             hist["exception_%d" % code] = hist.get("exception_%d" % code, 0) + 1
         if new is not None:
@@ -711,7 +784,10 @@ def run_case(world, ops=None, rs=None, nops=0, want_terms=True):
     if want_terms:
         heap, famt = model_init(world)
         term = "chk_run %s %s %s %s" % (heap, famt, coq_list([obs_term(o) for o in obs0]), coq_list(steps, ";\n      "))
-    return {"ops": done, "term": term, "bad": orc.bad, "hist": hist, "handles": len(fam)}
+    # `assumed`: the model treats stored coordinates as immutable values; an array the caller handed to a setter
+    # and that an operation then mutates breaks that (reported with the correspondence, not as the property)
+    return {"ops": done, "term": term, "bad": orc.bad, "hist": hist, "handles": len(fam),
+            "caller_array_changed": ["array %d handed to a setter was mutated in place by step %d" % a for a in assumed]}
 
 
 def nontrivial(ops):
@@ -790,6 +866,28 @@ def corpus_cases():
         {"h": 0, "op": "move", "v": d1}, {"h": 9, "op": "move", "v": d1}, {"h": 2, "op": "ali_set", "side": "end", "j": 1},
         {"h": 2, "op": "ali_set", "side": "start", "j": 2}, {"h": 2, "op": "ali_set", "side": "end", "j": None}]
 
+    # witnesses of seeded change C18-4 (move in place): (A) ONE ndarray handed to the setters of the original and of
+    # its copy, then one of them moved; (B) the displacement is the live position array of an atom of the body
+    ref = [[0.0, 0.0, 0.0], [1.0, 0.0, 0.0], [1.0, 1.0, 0.0], [1.0, 1.0, 1.0], [2.0, 1.0, 1.0]]
+    yield "one_array_for_original_and_copy", w, [
+        {"h": 0, "op": "copy"}, {"h": 1, "op": "move", "v": [1.0, 2.0, 3.0]}, {"h": 0, "op": "rotate", "m": rot},
+        {"h": 0, "op": "move_to", "v": [5.0, 5.0, 5.0]}, {"h": 1, "op": "rotate", "m": rot},
+        {"h": 0, "op": "set_positions", "l": ref, "buf": 0}, {"h": 1, "op": "set_positions", "l": ref, "buf": 0},
+        {"h": 1, "op": "move", "v": [0.5, -1.0, 2.0]}, {"h": 0, "op": "move_to", "v": [-3.0, 0.0, 4.0]},
+        {"h": 0, "op": "copy"}, {"h": 2, "op": "set_positions", "l": ref, "buf": 0}, {"h": 0, "op": "resview", "i": 1},
+        {"h": 2, "op": "move", "v": [1.0, 1.0, 1.0]}, {"h": 3, "op": "move", "v": [0.0, 2.0, 0.0]},
+        {"h": 0, "op": "set_velocities", "l": ref, "buf": 1}, {"h": 1, "op": "set_velocities", "l": ref, "buf": 1},
+        {"h": 1, "op": "index", "i": 2}, {"h": 4, "op": "set_pos", "v": [7.0, 7.0, 7.0]}, {"h": 1, "op": "move", "v": [1.0, 0.0, 0.0]}]
+    yield "displacement_is_a_live_array_of_the_body", w, [
+        {"h": 0, "op": "move", "v": [0.0, 0.0, 0.0], "src": {"kind": "atom", "k": 2}},
+        {"h": 0, "op": "resview", "i": 1}, {"h": 1, "op": "move", "v": [0.0, 0.0, 0.0], "src": {"kind": "atom", "k": 1}},
+        {"h": 0, "op": "move_to", "v": [0.0, 0.0, 0.0], "src": {"kind": "atom", "k": 1}},
+        {"h": 0, "op": "move", "v": [0.0, 0.0, 0.0], "src": {"kind": "center"}},
+        {"h": 0, "op": "set_positions", "l": ref, "buf": 0},
+        {"h": 0, "op": "move", "v": [0.0, 0.0, 0.0], "src": {"kind": "buf", "buf": 0, "row": 1}},
+        {"h": 0, "op": "move_to", "v": [0.0, 0.0, 0.0], "src": {"kind": "center"}},
+        {"h": 1, "op": "move_to", "v": [0.0, 0.0, 0.0], "src": {"kind": "atom", "k": 0}}]
+
 
 # ------------------------------------------------------------------ check entry points
 MAXREPORT = 6
@@ -834,16 +932,23 @@ def correspondence(ctx):
     cases, meta = [], []
     hist = {}
     lens = {}
+    inplace = []
     for name, world, ops in corpus_cases():
         r = run_case(world, ops=ops)
         cases.append(r["term"])
         meta.append({"kind": "sequence", "world": world, "ops": r["ops"], "name": name})
+        if r["caller_array_changed"]:
+            inplace.append({"kind": "sequence", "world": world, "ops": r["ops"], "code": 1, "name": name,
+                            "what": "model assumption broken: " + r["caller_array_changed"][0]})
     for c in range(ncases):
         world = gen_world(rs)
         nops = int(rs.randint(8, maxops + 1))
         r = run_case(world, rs=rs, nops=nops)
         cases.append(r["term"])
         meta.append({"kind": "sequence", "world": world, "ops": r["ops"]})
+        if r["caller_array_changed"]:
+            inplace.append({"kind": "sequence", "world": world, "ops": r["ops"], "code": 1,
+                            "what": "model assumption broken: " + r["caller_array_changed"][0]})
         for k, v in r["hist"].items():
             hist[k] = hist.get(k, 0) + v
         b = "len<=%d" % (10 * ((len(r["ops"]) + 9) // 10))
@@ -865,7 +970,8 @@ def correspondence(ctx):
         return [{"error": "coqc failed on the correspondence cases", "log": log[-1500:]}]
     K["disagree"] = len(codes)
     K["agree"] = len(cases) - len(codes)
-    dis = []
+    K["caller_arrays_mutated_in_place"] = len(inplace)
+    dis = list(inplace)
     for i, c in sorted(codes.items()):
         step = c // 4
         m = meta[i]
